@@ -45,12 +45,29 @@ RULE = ("histories of cache / logout operations against one real Saml2Client per
         "passing before the answer, global_logout by coded string; the NameID arriving in XML: Responses and LogoutRequests "
         "over three bindings, SOAP logout; the neighbours side by side at one issuer with different times); (e') seeded "
         "histories of (d) with subjects drawn from one family / the whole pool and logouts asked for by coded string.  "
-        "Subjects handed out by the implementation are identified FIELD BY FIELD (not through ident.code).  non-trivial = distinct "
+        "Subjects handed out by the implementation are identified FIELD BY FIELD (not through ident.code).  (f) SEVERAL "
+        "logouts in flight at the same IdPs (round 6): two subjects + a bystander at two front-channel IdPs, both logouts "
+        "started before any answer, lists of outstanding IdPs equal by value / in another order / becoming equal / two "
+        "transactions of one subject / one deadline passing, x EVERY sequence of three answers among the requests handed "
+        "out and not yet answered (quick: the 4 oldest for equal lists, the 3 oldest otherwise), then every request still "
+        "out is answered; one IdP with 2-3 subjects logging out at once x every answer order; (f') seeded such histories "
+        "with re-logins, ticks, IdP-initiated requests in between.  (g) the DEPLOYMENT (round 6): 13 ways of owning the "
+        "SP's stores and of spreading the operations over Saml2Client objects built by the real constructor (default "
+        "stores; the application's EMPTY dict / UserDict / mapping object without __len__ as state_cache, its Cache or a "
+        "shelve file as identity_cache; one long-lived client, a fresh client per operation, 2-3 workers, restarts), the "
+        "view read through ANOTHER client object and from the application's store, x logout flows over 4 (thorough 6) "
+        "worlds x answer order with wrong issuer / unknown id / failure status / duplicate / real Responses / IdP-initiated "
+        "requests / local logout, and concurrent logouts of (f); (g') seeded histories of (d) under a seeded deployment.  "
+        "In (f), (g) answers are addressed by the runner's OWN record of the requests handed out (not by the client's "
+        "state).  non-trivial = distinct "
         "(operation kind, output kind, world class) triples observed")
 TRUSTED = ["virtual clock behind saml2.time_util (harness/env.py VClock)",
            "stub SOAP transport replacing Saml2Client.send; unsigned LogoutResponse / LogoutRequest templates in harness/c19.py",
            "xmlsec1 stand-in + renderer for the Responses fed through parse_authn_request_response",
            "abstraction of return values and client state in harness/c19.py",
+           "deployment cases: the application's stores (dict, collections.UserDict, harness ObjStore, saml2.cache.Cache, a "
+           "shelve file in a temp dir) and the scheduling of operations over client objects in harness/c19.py (Deployment); "
+           "sigver.import_rsa_key_from_file memoised for the run (the SP's key file is re-read by every Saml2Client())",
            "source tie (translator v2, harness/py2coq2.py + Base/Py2.v; trusted base in notes/translator_v2.md: aliasing, "
            "object truthiness = has fields, exceptions = class names): time_util.before, time_util.after, Cache.get, "
            "Cache.active, Cache.entities, Cache.delete, Cache.subjects, Population.stale_sources_for_person, "
@@ -66,7 +83,11 @@ ASSUMPTIONS = ["NameIDs and entity ids are mapped to small numbers: the model as
                "ident.decode inverts it (hypothesis cache_encoding_ok of the source theorems; shown necessary for Cache.subjects "
                "by c19_source2_subjects_need_roundtrip); on the implementation side this is exercised by the NameID pool "
                "(families of NameIDs a wrong coding conflates or does not bring back), not proved (C18 proves code/decode)",
-               "message ids are numbered in order of first appearance in Saml2Client.state",
+               "message ids are numbered in order of first appearance in the SP's state store (Saml2Client.state, or the "
+               "state_cache object the application handed in), ids that are handed out without being on file after them",
+               "state stores keep the very objects they are given (in-memory stores): the client recognises the requests of "
+               "one logout by the IDENTITY of their shared entity_ids list, a store that hands out copies is not supported "
+               "by the code and not modelled",
                "LogoutRequests / LogoutResponses are otherwise valid (IssueInstant, Destination, version)",
                "single-threaded use of the client (Saml2Client.lock is not exercised)"]
 
@@ -203,6 +224,148 @@ def get_client(pref):
     sp.users = Population()
     sp.state = {}
     return sp
+
+
+# ---------------------------------------------------------------------------- the DEPLOYMENT as a dimension (round 6)
+# Who owns the two stores of the SP and how many Saml2Client objects work on them.  The property speaks about "a
+# service provider"; the documented way to run one behind a web server is to hand every Saml2Client the
+# application's own identity_cache / state_cache ("where the class should keep state information") - one client per
+# HTTP request, several workers, a restart between the LogoutRequest and its answer.  None of this changes the
+# abstract history (the model is one SP), so a case carries it next to the operations:
+#   case["deploy"] = {"mode": "one" | "per-op" | "workers" | "restart", "n": workers, "every": ops between restarts,
+#                     "sched": worker per operation (cyclic), "state": "none" | "dict" | "userdict" | "obj",
+#                     "ident": "none" | "cache" | "file"}
+# Every client is built by the real constructor Saml2Client(config, identity_cache=, state_cache=) (the older
+# cases patch `users` / `state` of one long-lived object instead); the stores are EMPTY when the first client is
+# built; after every operation the view is read through ANOTHER client object where there is one (what the next
+# request will find) and straight from the application's state store.
+class ObjStore:
+    """a minimal mapping object an application may hand in: no __len__ / __bool__ (always truthy), keeps the very
+    objects it is given (an in-memory session adapter)"""
+
+    def __init__(self):
+        self._d = {}
+
+    def __getitem__(self, k):
+        return self._d[k]
+
+    def __setitem__(self, k, v):
+        self._d[k] = v
+
+    def __delitem__(self, k):
+        del self._d[k]
+
+    def __contains__(self, k):
+        return k in self._d
+
+    def __iter__(self):
+        return iter(self._d)
+
+    def get(self, k, default=None):
+        return self._d.get(k, default)
+
+    def keys(self):
+        return self._d.keys()
+
+    def values(self):
+        return self._d.values()
+
+    def items(self):
+        return self._d.items()
+
+
+_key_memo = {}
+
+
+def _memo_key_loading():
+    """harness-local speed-up: Saml2Client() re-reads and re-checks the SP's RSA key (40 ms) on every construction;
+    the file never changes during a run, so the loaded key object is kept (not C19's subject matter)"""
+    from saml2 import sigver
+
+    if getattr(sigver.import_rsa_key_from_file, "_c19_memo", False):
+        return
+    orig = sigver.import_rsa_key_from_file
+
+    def memo(filename):
+        if filename not in _key_memo:
+            _key_memo[filename] = orig(filename)
+        return _key_memo[filename]
+
+    memo._c19_memo = True
+    sigver.import_rsa_key_from_file = memo
+
+
+class Deployment:
+    def __init__(self, base, dep, send):
+        import collections
+        import tempfile
+
+        from saml2.cache import Cache
+
+        _memo_key_loading()
+        self.dep = dep
+        self.config = base.config
+        self.send = send
+        self.tmp = None
+        ik = dep.get("ident", "cache")
+        if ik == "none":
+            self.ident = None
+        elif ik == "file":
+            self.tmp = tempfile.mkdtemp(prefix="c19-cache-")
+            self.ident = self.tmp + "/identity"          # Population(<str>) -> Cache(filename): shelve-backed
+        else:
+            self.ident = Cache()
+        sk = dep.get("state", "dict")
+        self.store = {"none": lambda: None, "dict": dict, "userdict": collections.UserDict, "obj": ObjStore}[sk]()
+        self.mode = dep["mode"]
+        self.k = 0
+        n = dep.get("n", 2) if self.mode == "workers" else 1
+        self.pool = [] if self.mode == "per-op" else [self.make() for _ in range(n)]
+        self.cur = 0
+
+    def make(self):
+        from saml2.client import Saml2Client
+
+        c = Saml2Client(config=self.config, identity_cache=self.ident, state_cache=self.store)
+        c.send = self.send
+        return c
+
+    def client(self):
+        """the client object that handles the next operation"""
+        m = self.mode
+        k = self.k
+        self.k += 1
+        if m == "per-op":
+            return self.make()
+        if m == "workers":
+            sched = self.dep.get("sched")
+            self.cur = (sched[k % len(sched)] if sched else k) % len(self.pool)
+            return self.pool[self.cur]
+        if m == "restart" and k and k % self.dep.get("every", 3) == 0:
+            self.pool[0] = self.make()
+        return self.pool[0]
+
+    def reader(self):
+        """the client object through which the state of the SP is looked at after the operation"""
+        if self.mode == "per-op":
+            return self.make()
+        if self.mode == "workers":
+            return self.pool[(self.cur + 1) % len(self.pool)]
+        return self.pool[0]
+
+    def state(self):
+        return self.store if self.store is not None else self.pool[0].state
+
+    def close(self):
+        if self.tmp:
+            import shutil
+
+            for c in self.pool:
+                try:
+                    c.users.cache._db.close()
+                except Exception:  # noqa
+                    pass
+            shutil.rmtree(self.tmp, ignore_errors=True)
 
 
 def nameid(idx):
@@ -372,6 +535,16 @@ class Runner:
         self.rid_real = {}
         self.answers = []
         self.sp.send = self.fake_send
+        # requests handed out for delivery (output of do_logout), in that order, not yet answered by their
+        # addressee; whom each one went to (the runner's own record: it does not depend on the client's state)
+        self.outbox = []
+        self.sent_to = {}
+        self.dep = Deployment(self.sp, case["deploy"], self.fake_send) if case.get("deploy") else None
+        self.rd = self.sp
+
+    def state(self):
+        """the SP's state store: the application's object when it handed one in, else the client's own"""
+        return self.dep.state() if self.dep else self.sp.state
 
     # stub transport: answers as the op prescribes for the addressed IdP
     def fake_send(self, url, method="GET", **kw):
@@ -409,7 +582,7 @@ class Runner:
         return 99
 
     def number_rids(self):
-        for k in self.sp.state:
+        for k in self.state():
             if k not in self.rid_num:
                 n = len(self.rid_num)
                 self.rid_num[k] = n
@@ -423,7 +596,7 @@ class Runner:
             return {"subjects": [[99, [99]]], "logged": [99], "pending": []}
 
     def _view(self):
-        sp = self.sp
+        sp = self.rd
         subjects = []
         for n in sp.users.subjects():
             j = self.sub_of(n)
@@ -435,7 +608,7 @@ class Runner:
         logged = [j for j, g in enumerate(self.subs) if sp.is_logged_in(nameid(g))]
         self.number_rids()
         pending = []
-        for k, v in sp.state.items():
+        for k, v in self.state().items():
             exp = v.get("not_on_or_after")
             pending.append([self.rid_num[k], self.issuer_idx(v["entity_id"]), [self.issuer_idx(e) for e in v["entity_ids"]],
                             self.sub_of(v["name_id"]), None if exp is None else _epoch(exp)])
@@ -444,15 +617,21 @@ class Runner:
     def sent_abs(self, responses):
         """the `responses` dict of do_logout -> sorted [(issuer, binding|'soap', rid|None)]"""
         out = []
-        by_ent = {}
-        for k, v in self.sp.state.items():
-            by_ent.setdefault(v["entity_id"], []).append(k)
         self.number_rids()
         for e, r in responses.items():
             if isinstance(r, tuple):
                 b = {REDIRECT: "R", POST: "P"}.get(r[0], "?")
                 rid = _request_id(r[0], r[1])
-                out.append([self.issuer_idx(e), b, self.rid_num.get(rid, 999)])
+                if rid not in self.rid_num:
+                    # handed out but not on file in the SP's state store: numbered after the filed ones
+                    n = len(self.rid_num)
+                    self.rid_num[rid] = n
+                    self.rid_real[n] = rid
+                num = self.rid_num[rid]
+                if num not in self.sent_to:
+                    self.sent_to[num] = self.issuer_idx(e)
+                    self.outbox.append(num)
+                out.append([self.issuer_idx(e), b, num])
             else:
                 out.append([self.issuer_idx(e), "soap", None])
         return sorted(out, key=lambda x: x[0])
@@ -472,9 +651,14 @@ class Runner:
             return op
         _, rsel, isel, success, ans, b = op
         self.number_rids()
-        live = [self.rid_num[k] for k in self.sp.state]
+        live = [self.rid_num[k] for k in self.state()]
+        by_record = False
         if isinstance(rsel, dict):
-            if "live" in rsel and live:
+            if "sent" in rsel and self.outbox:
+                # the j-th request handed out and not yet answered by its addressee - whatever the client remembers
+                r = self.outbox[rsel["sent"] % len(self.outbox)]
+                by_record = True
+            elif "live" in rsel and live:
                 r = live[rsel["live"] % len(live)]
             elif "old" in rsel and self.rid_num:
                 r = rsel["old"] % len(self.rid_num)
@@ -484,7 +668,11 @@ class Runner:
             r = rsel
         if isel == "addr":
             k = self.rid_real.get(r)
-            i = self.issuer_idx(self.sp.state[k]["entity_id"]) if k in self.sp.state else 0
+            st = self.state()
+            if by_record:
+                i = self.sent_to[r]
+            else:
+                i = self.issuer_idx(st[k]["entity_id"]) if k in st else 0
         else:
             i = isel
         return ["LogoutResponse", r, i, success, ans, b]
@@ -544,6 +732,8 @@ class Runner:
         if k == "LogoutResponse":
             _, r, i, success, ans, b = op
             self.answers = ans
+            if success and self.sent_to.get(r) == i and r in self.outbox:
+                self.outbox.remove(r)          # its addressee answers it now
             real = self.rid_real.get(r, "id-unknown-%d" % r)
             xml = logout_response_xml(real, self.ent[i], success, SP_SLO[b], CLOCK.now)
             enc = render.deflate_b64(xml) if b == "R" else render.b64(xml)
@@ -592,13 +782,20 @@ class Runner:
 
     def run(self):
         steps = []
-        for op in self.case["ops"]:
-            rop = self.resolve(op)
-            try:
-                out = self.do(rop)
-            except Exception as e:  # noqa
-                out = ["Exn", exn_name(e)]
-            steps.append({"op": rop, "out": out, "view": self.view()})
+        try:
+            for op in self.case["ops"]:
+                rop = self.resolve(op)
+                if self.dep:
+                    self.sp = self.dep.client()
+                try:
+                    out = self.do(rop)
+                except Exception as e:  # noqa
+                    out = ["Exn", exn_name(e)]
+                self.rd = self.dep.reader() if self.dep else self.sp
+                steps.append({"op": rop, "out": out, "view": self.view()})
+        finally:
+            if self.dep:
+                self.dep.close()
         return steps
 
 
@@ -745,8 +942,11 @@ def coq_case(case, obs):
 
 
 # ---------------------------------------------------------------------------- generation
-def mk(pref, idps, subjects, ops, tag, t0=T0):
-    return {"t0": t0, "pref": pref, "idps": idps, "subjects": subjects, "ops": ops, "tag": tag}
+def mk(pref, idps, subjects, ops, tag, t0=T0, deploy=None):
+    c = {"t0": t0, "pref": pref, "idps": idps, "subjects": subjects, "ops": ops, "tag": tag}
+    if deploy:
+        c["deploy"] = dict(deploy)
+    return c
 
 
 def boundary_histories():
@@ -1157,6 +1357,200 @@ def random_history(rng, idx):
     return mk(pref, idps, subjects, ops[:40], "random-nosoap" if nosoap and "N" not in idps else "random", t0=T0)
 
 
+def _drain(n, k, b="R"):
+    """deliver what is still out, oldest first: every request the SP has sent gets its answer in the end"""
+    return [["LogoutResponse", {"sent": 0}, "addr", True, ["ok"] * k, b if j % 2 == 0 else "P"] for j in range(n)]
+
+
+def concurrent_histories(thorough):
+    """(f) SEVERAL logouts in flight at the same identity providers (round 6).  Two subjects (and a bystander) are
+    logged in at the same front-channel IdPs; both start a global logout before any answer arrives; then EVERY
+    sequence of three answers chosen among the requests handed out and not yet answered (the j-th oldest, j < 4;
+    continuation requests and second, moot requests to a party included), then every request still out is answered,
+    oldest first: each answer to a request the SP has sent must be consumed, each session must end exactly with
+    its last answer, the bystander and the other subject's pending requests are nobody else's business.
+    Variants = how the two lists of IdPs still to answer relate: `same` (same IdPs, same login order: lists EQUAL
+    by value, distinct objects), `reversed` (same IdPs, other order), `subset` (subject 1 only at the first IdP:
+    the lists become equal when subject 0's other IdP has answered), `twice` (subject 0 starts its logout twice:
+    two transactions of ONE subject with equal lists, plus subject 1), `deadline` (subject 0's deadline passes
+    after the second answer: 504 branch, subject 1 unaffected)."""
+    import itertools
+
+    cases = []
+    late = T0 + 1000
+    worlds2 = [["R", "P"]] + ([["RP", "R"], ["P", "PR"]] if thorough else [])
+    for idps in worlds2:
+        ok = ["ok"] * 2
+        for variant in ("same", "reversed", "subset", "twice", "deadline"):
+            # quick tier: the three oldest requests for the variants other than `same`
+            for seq in itertools.product(range(4 if thorough or variant == "same" else 3), repeat=3):
+                ops = [["Login", 0, 0, late, 1], ["Login", 0, 1, late, 2]]
+                if variant == "reversed":
+                    ops += [["Login", 1, 1, late, 3], ["Login", 1, 0, late, 4]]
+                elif variant == "subset":
+                    ops += [["Login", 1, 0, late, 3]]
+                else:
+                    ops += [["Login", 1, 0, late, 3], ["Login", 1, 1, late, 4]]
+                ops += [["Login", 2, 0, late, 5]]
+                dl0 = T0 + 50 if variant == "deadline" else T0 + 500
+                ops += [["StartLogout", 0, dl0, ok], ["StartLogout", 1, None if variant == "deadline" else T0 + 600, ok]]
+                if variant == "twice":
+                    ops += [["StartLogout", 0, T0 + 500, ok]]
+                for n, j in enumerate(seq):
+                    if variant == "deadline" and n == 2:
+                        ops += [["Tick", 100]]
+                    ops += [["LogoutResponse", {"sent": j}, "addr", True, ok, "RP"[j % 2]]]
+                ops += [["GetIdentity", 0, [], True], ["GetIdentity", 1, [], True]]
+                ops += _drain(6 if variant == "twice" else 5, 2)
+                ops += [["GetIdentity", 0, [], True], ["GetIdentity", 1, [], True], ["GetIdentity", 2, [], True],
+                        ["LogoutResponse", {"old": seq[0]}, "addr", True, ok, "R"]]
+                cases.append(mk("SRP", idps, [0, 1, 2], ops, "concurrent-" + variant))
+    # one IdP, up to three subjects logging out at the same time (the lists are all [IdP]), every order of answers
+    for kind in ("R", "P", "RP") + (("PR",) if thorough else ()):
+        for nsub in (2, 3):
+            for seq in itertools.product(range(nsub), repeat=nsub):
+                ops = [["Login", s, 0, late, s + 1] for s in range(3)]
+                ops += [["StartLogout", s, T0 + 500, ["ok"]] for s in range(nsub)]
+                for j in seq:
+                    ops += [["LogoutResponse", {"sent": j}, "addr", True, ["ok"], "RP"[j % 2]]]
+                    ops += [["GetIdentity", s, [], True] for s in range(3)]
+                ops += _drain(nsub, 1)
+                ops += [["GetIdentity", s, [], True] for s in range(3)]
+                cases.append(mk("SRP", [kind], [0, 1, 2], ops, "concurrent-one-idp"))
+    return cases
+
+
+DEPLOYS = [
+    {"mode": "one", "state": "none", "ident": "none"},
+    {"mode": "one", "state": "dict", "ident": "cache"},
+    {"mode": "one", "state": "userdict", "ident": "cache"},
+    {"mode": "one", "state": "obj", "ident": "cache"},
+    {"mode": "one", "state": "dict", "ident": "file"},
+    {"mode": "per-op", "state": "dict", "ident": "cache"},
+    {"mode": "per-op", "state": "userdict", "ident": "cache"},
+    {"mode": "per-op", "state": "obj", "ident": "cache"},
+    {"mode": "workers", "n": 2, "state": "dict", "ident": "cache"},
+    {"mode": "workers", "n": 3, "state": "userdict", "ident": "cache"},
+    {"mode": "workers", "n": 3, "sched": [0, 0, 1, 2, 1], "state": "obj", "ident": "cache"},
+    {"mode": "restart", "every": 3, "state": "dict", "ident": "cache"},
+    {"mode": "restart", "every": 2, "state": "userdict", "ident": "cache"},
+]
+
+
+def deploy_histories(thorough):
+    """(g) the DEPLOYMENT (round 6): who owns the SP's identity cache and state store, and how many Saml2Client
+    objects work on them - every entry of DEPLOYS (one long-lived client built by the real constructor with the
+    default stores / with the application's EMPTY dict, UserDict (falsy when empty), mapping object without __len__,
+    shelve-backed identity cache; a fresh client for every operation; 2-3 workers; restarts) x logout flows over four
+    worlds (front channel, SOAP + front channel, three IdPs; thorough: mixed endpoints, an IdP without SLO endpoint) x answer order, each with a
+    duplicate answer, an unknown InResponseTo, an answer from the wrong issuer, a re-login, an IdP-initiated
+    LogoutRequest, a local logout and a real Response accepted by one client and read through another; and two
+    concurrent logouts of (f).  Requests are addressed by the runner's own record of what was handed out."""
+    cases = []
+    late = T0 + 1000
+    worlds = [["R"], ["R", "P"], ["S", "R"], ["P", "R", "RP"]] + ([["SR", "PR"], ["R", "N"]] if thorough else [])
+    for dep in DEPLOYS:
+        for idps in worlds:
+            k = len(idps)
+            ok = ["ok"] * k
+            for order in ("fwd", "rev"):
+                ops = [["Login", 0, i, late, i + 1] for i in range(k)] + [["Login", 1, 0, late, 9]]
+                ops += [["StartLogout", 0, T0 + 500, ok], ["GetIdentity", 0, [], True]]
+                first = {"sent": 0} if order == "fwd" else {"sent": k - 1}
+                ops += [["LogoutResponse", first, "addr", True, ok, "R"],
+                        ["LogoutResponse", {"sent": 0}, (k - 1), True, ok, "P"],       # maybe from the wrong issuer
+                        ["LogoutResponse", {"unknown": 1}, 0, True, ok, "P"],
+                        ["LogoutResponse", {"sent": 0}, "addr", False, ok, "R"]]     # failure status
+                ops += _drain(k + 1, k)
+                ops += [["GetIdentity", 0, [], True], ["GetIdentity", 1, [], True],
+                        ["LogoutResponse", {"old": 0}, "addr", True, ok, "R"],         # duplicate
+                        ["Accept", 0, 0, late, None, 11, "good"], ["GetInfoFrom", 0, 0, True],
+                        ["Accept", 2, 0, late, None, 12, "badsig"],
+                        ["StartLogout", 0, None, ok], ["StartLogout", 1, None, ok],
+                        ["LogoutRequest", 1, 1, 0, "R"], ["LogoutRequest", 0, 1, 0, "P"]]
+                ops += _drain(2, k)
+                ops += [["Login", 1, 0, late, 13], ["StartLogout", 1, T0 + 5, ok], ["Tick", 10], ["LocalLogout", 0]]
+                ops += _drain(1, k)
+                ops += [["GetIdentity", 0, [], True], ["GetIdentity", 1, [], True], ["Stale", 1, []]]
+                cases.append(mk("SRP", idps, [0, 1, 2], ops, "deploy-" + dep["mode"], deploy=dep))
+        if dep["mode"] == "one" and dep["state"] != "dict":
+            continue
+        # two logouts in flight (f) under this deployment
+        for variant, seq in (("same", (0, 1, 1)), ("same", (2, 0, 2)), ("subset", (1, 0, 0))):
+            ok = ["ok"] * 2
+            ops = [["Login", 0, 0, late, 1], ["Login", 0, 1, late, 2], ["Login", 1, 0, late, 3]]
+            ops += [["Login", 1, 1, late, 4]] if variant == "same" else []
+            ops += [["Login", 2, 0, late, 5], ["StartLogout", 0, T0 + 500, ok], ["StartLogout", 1, T0 + 600, ok]]
+            ops += [["LogoutResponse", {"sent": j}, "addr", True, ok, "RP"[j % 2]] for j in seq]
+            ops += _drain(6, 2)
+            ops += [["GetIdentity", s, [], True] for s in range(3)]
+            cases.append(mk("SRP", ["R", "P"], [0, 1, 2], ops, "deploy-" + dep["mode"], deploy=dep))
+    return cases
+
+
+def deploy_random_history(rng, idx):
+    """(g') a random history of (d) under a random deployment; the adaptive `live` selectors (what the client has on
+    file) are turned into `sent` selectors (what the SP has handed out) two times in three"""
+    c = random_history(rng, idx)
+    dep = dict(rng.choice([d for d in DEPLOYS if d["ident"] != "file"]))
+    if dep["mode"] == "workers":
+        dep["sched"] = [rng.randrange(dep["n"]) for _ in range(rng.randint(3, 7))]
+    if rng.random() < 0.67:
+        for op in c["ops"]:
+            if op[0] == "LogoutResponse" and isinstance(op[1], dict) and "live" in op[1]:
+                op[1] = {"sent": op[1]["live"]}
+    c["deploy"] = dep
+    c["tag"] = "random-deploy"
+    return c
+
+
+def concurrent_random_history(rng, idx):
+    """(f') seeded: 2-3 subjects logged in at 1-3 front-channel IdPs in seeded orders / subsets, all start a global
+    logout (some twice), then answers drawn among the requests handed out, with re-logins, ticks, IdP-initiated
+    requests and reads in between, then the rest is delivered"""
+    nk = rng.randint(1, 3)
+    ns = rng.randint(2, 3)
+    idps = [rng.choice(NOSOAP_KINDS) for _ in range(nk)]
+    idps = list(dict.fromkeys(idps)) or ["R"]
+    nk = len(idps)
+    ok = ["ok"] * nk
+    late = T0 + 1000
+    ops = []
+    tok = 1
+    for s in range(ns):
+        order = rng.sample(range(nk), rng.randint(1, nk)) if rng.random() < 0.5 else list(range(nk))
+        for i in order:
+            ops.append(["Login", s, i, late, tok])
+            tok += 1
+    starters = [s for s in range(ns) if rng.random() < 0.9] or [0]
+    rng.shuffle(starters)
+    for s in starters:
+        ops.append(["StartLogout", s, rng.choice([None, T0 + 500, T0 + 30]), ok])
+    if rng.random() < 0.3:
+        ops.append(["StartLogout", rng.choice(starters), T0 + 500, ok])
+    for _ in range(rng.randint(2, 3 * nk + 2)):
+        x = rng.random()
+        if x < 0.08:
+            ops.append(["Tick", rng.choice([1, 40, 40, 600])])
+        elif x < 0.14:
+            ops.append(["Login", rng.randrange(ns), rng.randrange(nk), late, tok])
+            tok += 1
+        elif x < 0.18:
+            s = rng.randrange(ns)
+            ops.append(["LogoutRequest", s, s, rng.randrange(nk), rng.choice("RP")])
+        elif x < 0.26:
+            ops.append(["GetIdentity", rng.randrange(ns), [], True])
+        else:
+            ops.append(["LogoutResponse", {"sent": rng.randrange(5)}, "addr" if rng.random() < 0.93 else rng.randrange(nk),
+                        rng.random() < 0.95, ok, rng.choice("RP")])
+    ops += _drain(ns * nk + 2, nk)
+    ops += [["GetIdentity", s, [], True] for s in range(ns)]
+    c = mk(rng.choice(PREFS), idps, rng.sample(range(BASE_N), ns), ops[:60], "random-concurrent")
+    if rng.random() < 0.4:
+        c["deploy"] = dict(rng.choice([d for d in DEPLOYS if d["mode"] != "one"]))
+    return c
+
+
 def generate(ctx):
     rng = ctx.rng
     cases = boundary_histories()
@@ -1183,6 +1577,14 @@ def generate(ctx):
     srng = _random.Random(ctx.seed * 7919 + 23)
     for k in range(800 if ctx.thorough else 80):
         cases.append(shape_random_history(srng, k))
+    # round 6: several logouts in flight at the same IdPs; the deployment (whose stores, how many client objects)
+    cases += concurrent_histories(ctx.thorough)
+    cases += deploy_histories(ctx.thorough)
+    drng = _random.Random(ctx.seed * 7919 + 29)
+    for k in range(400 if ctx.thorough else 40):
+        cases.append(concurrent_random_history(drng, k))
+    for k in range(400 if ctx.thorough else 40):
+        cases.append(deploy_random_history(drng, k))
     return cases
 
 
